@@ -60,7 +60,7 @@ def puzzle_problem(rng, p, h, w):
 
 def valid_url(rng, objs, p, h, w):
     mod, comb, ser, de = objs[p]
-    o = sc.run_guarded(lambda: ser(*puzzle_problem(rng, p, h, w)), 20)
+    o = sc.run_guarded(lambda: ser(*puzzle_problem(rng, p, h, w)), 5)
     if o[0] == "ret" and isinstance(o[1], str):
         return o[1]
     return None
@@ -358,7 +358,7 @@ def _typed(v):
 def _judge(decode, encode, text):
     """decode(text) must be None, raise ValueError, or give a value that re-encodes and re-decodes to itself.
     Returns None if fine else (class, message)."""
-    o = sc.run_guarded(lambda: decode(text), 20)
+    o = sc.run_guarded(lambda: decode(text), 5)
     if o[0] == "diverge":
         return ("non-termination", "does not terminate")
     if o[0] == "err":
@@ -366,10 +366,10 @@ def _judge(decode, encode, text):
     v = o[1]
     if v is None:
         return None
-    e = sc.run_guarded(lambda: encode(v), 20)
+    e = sc.run_guarded(lambda: encode(v), 5)
     if e[0] != "ret" or not isinstance(e[1], str):
         return ("not-reencodable", "returns %r, whose serialization %s" % (v, "raises " + e[1] if e[0] == "err" else "fails"))
-    o2 = sc.run_guarded(lambda: decode(e[1]), 20)
+    o2 = sc.run_guarded(lambda: decode(e[1]), 5)
     if o2[0] != "ret" or _typed(o2[1]) != _typed(v):
         return ("reencoding-differs", "returns %r; its canonical text %r decodes to %s" % (v, e[1], o2[1] if o2[0] == "ret" else o2))
     return None
@@ -379,7 +379,7 @@ def _judge_url(objs, p, u):
     """deserialize_<p>(u) against the property text; returns None if fine else (signature, message)."""
     import cspuz.problem_serializer as ps
     mod, comb, ser, de = objs[p]
-    o = sc.run_guarded(lambda: de(u), 20)
+    o = sc.run_guarded(lambda: de(u), 5)
     bad = None
     if o[0] == "diverge":
         bad = ("non-termination", "does not terminate")
@@ -390,11 +390,11 @@ def _judge_url(objs, p, u):
         m = ps._DESERIALIZE_URL_REG.match(u)
         hh, ww = int(m[3]), int(m[2])
         prob = v[2] if isinstance(v, tuple) and len(v) == 3 and v[0] == hh and v[1] == ww and p in ("lits", "norinori", "heyawake") else v
-        e = sc.run_guarded(lambda: ps.serialize_problem_as_url(comb, m[1], hh, ww, prob), 20)
+        e = sc.run_guarded(lambda: ps.serialize_problem_as_url(comb, m[1], hh, ww, prob), 5)
         if e[0] != "ret":
             bad = ("not-reencodable", "returns %r, which serialize_problem_as_url cannot encode (%s)" % (v, e[1] if e[0] == "err" else "loops"))
         else:
-            o2 = sc.run_guarded(lambda: de(e[1]), 20)
+            o2 = sc.run_guarded(lambda: de(e[1]), 5)
             if o2[0] != "ret" or _typed(o2[1]) != _typed(v):
                 bad = ("reencoding-differs", "returns %r; its canonical URL %r decodes to %r" % (v, e[1], o2[1] if o2[0] == "ret" else o2))
     if not bad:
@@ -461,7 +461,7 @@ def _tupl_drops_items(obj, text, h, w):
     """Root-cause probe for a failing case: does some `Tupl.serialize` call hand a component to its element and get
     back fewer consumed items than the component holds (the rest is silently dropped)?"""
     import cspuz.problem_serializer as ps
-    o = sc.run_guarded(lambda: ps.deserialize_problem(obj, text, height=h, width=w), 20)
+    o = sc.run_guarded(lambda: ps.deserialize_problem(obj, text, height=h, width=w), 5)
     if o[0] != "ret" or o[1] is None:
         return False
     flag = []
@@ -480,7 +480,7 @@ def _tupl_drops_items(obj, text, h, w):
 
     ps.Tupl.serialize = probe
     try:
-        sc.run_guarded(lambda: ps.serialize_problem(obj, o[1], height=h, width=w), 20)
+        sc.run_guarded(lambda: ps.serialize_problem(obj, o[1], height=h, width=w), 5)
     finally:
         ps.Tupl.serialize = orig
     return bool(flag)
@@ -655,7 +655,7 @@ def replay(ctx, data):
         objs = sc.puzzle_objects()
         mod, comb, ser, de = objs[data["puzzle"]]
         u = data["url"]
-        o = sc.run_guarded(lambda: de(u), 20)
+        o = sc.run_guarded(lambda: de(u), 5)
         if o[0] == "diverge" or (o[0] == "err" and o[1] not in ALLOWED_ERR):
             return Finding(data["sig"], "still fails: %s" % (o,), data)
         if o[0] == "ret" and o[1] is not None:
@@ -663,10 +663,10 @@ def replay(ctx, data):
             hh, ww = int(m[3]), int(m[2])
             v = o[1]
             prob = v[2] if isinstance(v, tuple) and len(v) == 3 and data["puzzle"] in ("lits", "norinori", "heyawake") else v
-            e = sc.run_guarded(lambda: ps.serialize_problem_as_url(comb, m[1], hh, ww, prob), 20)
+            e = sc.run_guarded(lambda: ps.serialize_problem_as_url(comb, m[1], hh, ww, prob), 5)
             if e[0] != "ret":
                 return Finding(data["sig"], "still not re-encodable: %r" % (v,), data)
-            o2 = sc.run_guarded(lambda: de(e[1]), 20)
+            o2 = sc.run_guarded(lambda: de(e[1]), 5)
             if o2[0] != "ret" or _typed(o2[1]) != _typed(v):
                 return Finding(data["sig"], "canonical URL decodes differently", data)
         return None
